@@ -13,6 +13,19 @@ PROPS["C19"] = dict(
         "Zrnt.Proofs.C19.slotToEpoch_spec",
         "Zrnt.Proofs.C19.timeToSlot_spec",
         "Zrnt.Proofs.C19.timeAtSlot_spec",
+        "Zrnt.Proofs.C19.epochStartSlot_spec",
+        "Zrnt.Proofs.C19.churn_spec",
+        "Zrnt.Proofs.C19.committeeCount_spec",
+        "Zrnt.Proofs.C19.checkSlotSpan_spec",
+        "Zrnt.Proofs.C19.activationExitEpoch_spec",
+        "Zrnt.Proofs.C19.slotPrevious_spec",
+        "Zrnt.Proofs.C19.epochPrevious_spec",
+        "Zrnt.Proofs.C19.isPow2_iff",
+        "Zrnt.Proofs.C19.nextPow2_spec",
+        "Zrnt.Proofs.C19.merkle_eq_spec",
+        "Zrnt.Proofs.C19.merkle_domain",
+        "Zrnt.Proofs.C19.merkle_sound",
+        "Zrnt.Proofs.C19.merkle_complete",
     ],
     modes=[dict(name="c19")],
     level="proof",
